@@ -221,6 +221,33 @@ def check_failing_writes(ctx, items, data):
     return None
 
 
+def is_subsequence(sub, full):
+    it = iter(full)
+    return all(any(x == y for y in it) for x in sub)
+
+
+def check_dropped_frames(ctx, items, data):
+    """A write that failed completely while the application carried on: every single frame is dropped in turn.
+    Whatever is yielded must be written records, in order (a record whose descriptor frame is missing must NOT be
+    decoded with another descriptor).  Returns (list of (data', yielded observations, clean?), error)."""
+    from flow.record import Record
+    want = [recgen.canon(recgen.obs_item(x, True)) for x in items]
+    bounds = [0] + frame_ends(data)
+    out = []
+    for i in range(1, len(bounds) - 1):
+        d2 = data[:bounds[i]] + data[bounds[i + 1]:]
+        got, oc = read_cut(d2)
+        ctx.count_case(("dropped-frame", i, data[:24]))
+        if any(not isinstance(x, Record) for x in got):
+            return out, "frame %d dropped: the reader yields a non-record object" % i
+        gotc = [recgen.canon(recgen.obs_item(x, True)) for x in got]
+        if not is_subsequence(gotc, want):
+            return out, "frame %d dropped (its write failed, writing continued): the reader yields a record that was not written: %r" % (
+                i, [repr(x)[:200] for x in got])
+        out.append((d2, [recgen.obs_item(x, True) for x in got], oc == "clean", oc == "notstream"))
+    return out, None
+
+
 def explore(ctx):
     streams = gen_streams(ctx, 5 if ctx.tier == "quick" else 40)
     terms, metas = [], []
@@ -230,6 +257,9 @@ def explore(ctx):
             err = check_gzip_cuts(ctx, items, data)
         if not err:
             err = check_failing_writes(ctx, items, data)
+        dropped = []
+        if not err:
+            dropped, err = check_dropped_frames(ctx, items, data)
         if err:
             ctx.violation(err, dict(kind="cut", items=[repr(x) for x in items], stream_hex=data.hex(), error=err))
             return None, None, True
@@ -243,6 +273,11 @@ def explore(ctx):
                                 for k, n, c, ns in cuts)
         terms.append('(cuts_ok %s (unhex "%s") %s %s)' % (tbl, data.hex(), rb, cl))
         metas.append((items, data))
+        for d2, got_obs, clean, ns in dropped:
+            rb2 = "[%s]" % "; ".join(recgen.coq_item(o, readback=True) for o in got_obs)
+            terms.append('(cuts_ok %s (unhex "%s") %s [(%d%%nat, (%d%%nat, (%s, %s)))])' % (
+                tbl, d2.hex(), rb2, len(d2), len(got_obs), "true" if clean else "false", "true" if ns else "false"))
+            metas.append((items, d2))
     return terms, metas, False
 
 
@@ -270,7 +305,7 @@ def run(ctx):
     terms, metas, found = explore(ctx)
     if found:
         return
-    failing, err = core.eval_bool_cases(ctx, HEADER, terms, shard_size=1, name="c04", timeout=900)
+    failing, err = core.eval_bool_cases(ctx, HEADER, terms, shard_size=max(1, (len(terms) + 15) // 16), name="c04", timeout=900)
     if err:
         ctx.violation("correspondence shards did not evaluate: " + err[:300], dict(kind="coq-eval", log=err), no_input=True)
         return
